@@ -30,6 +30,11 @@ W[("C01", "posix_shorthand_custom_delimiter")] = {"op": "parse", "in": {"tree": 
 T4 = {"cmds": [dict(_cmd("root", -1, [_flag("name", "n")]), whitelist=True), dict(_cmd("sub", 0, []), whitelist=True)]}
 W[("C01", "unknown_flag_takes_next_word")] = {"op": "parse", "in": {"tree": T4, "words": ["-z", ""]}}
 W[("C07", "unknown_flag_takes_next_word")] = {"op": "parse", "in": {"tree": T4, "words": ["-z", ""]}}
+T5 = {"cmds": [_cmd("root", -1, [dict(_flag("delim", "delim"), mode=1), dict(_flag("list", "list", "stringSlice"), mode=1, nargs=-1)], inter=False, npos=2), _cmd("sub", 0, [])]}
+W[("C01", "shorthand_only_flag_in_long_form")] = {"op": "parse", "in": {"tree": T5, "words": ["--delim", "v", "-list", "a", "-c"]}}
+W[("C07", "shorthand_only_flag_in_long_form")] = {"op": "parse", "in": {"tree": T5, "words": ["--delim", "v", ""]}}
+T6 = {"cmds": [_cmd("root", -1, [_flag("color", ""), dict(_flag("files", "f", "stringArray"), nargs=-1)])]}
+W[("C01", "nargs_any_flag_before_pending_flag")] = {"op": "parse", "in": {"tree": T6, "words": ["--files", "--color", ""]}}
 W[("C20", "complete_protocol_positional_from_dash_slot")] = {"op": "ccomplete", "in": {"tree": T2, "words": [""], "cobraSide": False}}
 _E = lambda shell, word, desc: {"op": "entry", "in": {"tree": T1, "variant": 6, "ancestor": "fish", "args": [shell, "root", word], "env": {}, "desc": desc}}
 W[("C18", "zsh_framing_control_chars")] = _E("zsh", "-\x01", "plain")
